@@ -5,6 +5,7 @@ import (
 	"go/ast"
 	"go/token"
 	"go/types"
+	"strings"
 )
 
 func (e *Engine) loopOrdinal(s ast.Stmt) int {
@@ -239,6 +240,22 @@ func (e *Engine) collectHavoc(nodes []ast.Node, st *State) *havocSet {
 					}
 				}
 			}
+			// external effect log: (*sql.Stmt).Exec
+			if se, ok := x.Fun.(*ast.SelectorExpr); ok && se.Sel.Name == "Exec" {
+				if sel := e.info().Selections[se]; sel != nil {
+					if fn, ok := sel.Obj().(*types.Func); ok && fn.Pkg() != nil && fn.Pkg().Path() == "database/sql" {
+						tmp := st.clone()
+						nob := len(e.obls)
+						func() {
+							defer func() { recover() }()
+							if b, ok := e.eval(se.X, tmp).(VTerm); ok {
+								h.mem["nexec:"+b.T.String()] = true
+							}
+						}()
+						e.obls = e.obls[:nob]
+					}
+				}
+			}
 			// call of a function-typed variable
 			if id, ok := ast.Unparen(x.Fun).(*ast.Ident); ok {
 				if o, ok := e.info().ObjectOf(id).(*types.Var); ok {
@@ -284,6 +301,75 @@ func typeHasChan(t types.Type) bool {
 		}
 	}
 	return false
+}
+
+// safety net: everything the executed loop body changed must have been havoced at the loop head
+func (e *Engine) checkHavocComplete(head, out *State, h *havocSet, where string) {
+	for k, v := range out.mem {
+		hv, ok := head.mem[k]
+		if ok && hv.String() == v.String() {
+			continue
+		}
+		if h.mem[k] || h.arr[k] {
+			continue
+		}
+		if strings.HasPrefix(k, "fld:") {
+			covered := false
+			for r := range h.fields {
+				if strings.HasPrefix(k, "fld:"+r+".") {
+					covered = true
+				}
+			}
+			if covered {
+				continue
+			}
+			if !ok {
+				continue // object created inside the body
+			}
+		}
+		if !ok && (strings.HasPrefix(k, "consumed:") || strings.HasPrefix(k, "sent:") || strings.HasPrefix(k, "closed:") || strings.HasPrefix(k, "ncalls:")) {
+			continue // stream / function value created inside the body
+		}
+		unsup("loop at %s changes %s, which the havoc analysis did not anticipate", where, k)
+	}
+	for k, v := range out.memV {
+		hv, ok := head.memV[k]
+		if ok && sameValueDeep(hv, v) {
+			continue
+		}
+		covered := false
+		for r := range h.fields {
+			if strings.HasPrefix(k, "fld:"+r+".") {
+				covered = true
+			}
+		}
+		for r := range h.ghosts {
+			if k == "ghost:view:"+r {
+				covered = true
+			}
+		}
+		if covered || !ok {
+			continue
+		}
+		unsup("loop at %s changes %s, which the havoc analysis did not anticipate", where, k)
+	}
+	for o, v := range out.vars {
+		hv, ok := head.vars[o]
+		if !ok || h.vars[o] {
+			continue
+		}
+		if !sameValueDeep(hv, v) {
+			unsup("loop at %s changes variable %s, which the havoc analysis did not anticipate", where, o.Name())
+		}
+	}
+}
+
+func sameValueDeep(a, b Value) bool {
+	if am, ok := a.(VMap); ok {
+		bm, ok2 := b.(VMap)
+		return ok2 && am.Has.String() == bm.Has.String() && am.Val.String() == bm.Val.String() && (am.Len == nil || am.Len.String() == bm.Len.String())
+	}
+	return sameValue(a, b)
 }
 
 func (e *Engine) applyHavoc(h *havocSet, st *State) {
@@ -508,6 +594,7 @@ func (e *Engine) execFor(x *ast.ForStmt, st *State) []Out {
 				if x.Post != nil {
 					s2 = e.execStmt(x.Post, s2)[0].st
 				}
+				e.checkHavocComplete(head, s2, h, e.src(x))
 				e.assertInvariants(x, s2, pos, "preserve")
 				if dec0 != nil {
 					d1 := e.decreasesTerm(x, s2, pos)
@@ -596,6 +683,7 @@ func (e *Engine) execRangeChan(x *ast.RangeStmt, st *State) []Out {
 		case fReturn:
 			results = append(results, o)
 		default:
+			e.checkHavocComplete(head, o.st, h, e.src(x))
 			e.assertInvariants(x, o.st, pos, "preserve")
 		}
 	}
@@ -707,6 +795,7 @@ func (e *Engine) execRangeSlice(x *ast.RangeStmt, st *State, u *types.Slice) []O
 			results = append(results, o)
 		default:
 			o.st.vars[iv] = VTerm{T: mkArith("+", idx, mkInt(1)), Typ: types.Typ[types.Int]}
+			e.checkHavocComplete(head, o.st, h, e.src(x))
 			e.assertInvariants(x, o.st, pos, "preserve")
 		}
 	}
@@ -772,6 +861,7 @@ func (e *Engine) execRangeMap(x *ast.RangeStmt, st *State) []Out {
 			results = append(results, o)
 		default:
 			o.st.vars[iv] = VTerm{T: mkArith("+", idx, mkInt(1)), Typ: types.Typ[types.Int]}
+			e.checkHavocComplete(head, o.st, h, e.src(x))
 			e.assertInvariants(x, o.st, pos, "preserve")
 		}
 	}
